@@ -30,7 +30,9 @@ func Gen(r *sx.Rng, idx int, focus string) sx.Tree {
 			// One such case per 3500 inputs: one in the quick tier (rotating by seed), more in the thorough tier.
 			rate := r.Range(1, 3)
 			n := 100 + rate + r.Range(0, rate)
-			return sx.T(sx.L(1), sx.L(rate), sx.L(n), sx.L(r.Range(1, 2)), sx.L(0))
+			// ... run concurrently with the main consumer, which handles a rebalance and one record while the recovery
+			// goroutine waits for its last token
+			return sx.T(sx.L(1), sx.L(rate), sx.L(n), sx.L(r.Range(1, 2)), sx.L(1), sx.L(1))
 		case idx < 8:
 			// at or below the burst: no waiting at all is required (lower bound 0)
 			return sx.T(sx.L(1), sx.L(sx.Pick(r, int64(50), int64(1000))), sx.L(r.Range(1, 100)), sx.L(r.Range(1, 3)), sx.L(3))
@@ -337,7 +339,13 @@ func genScenario(r *sx.Rng, focus string) sx.Tree {
 		if r.Chance(30) {
 			ops = append(ops, opPump(w.p, r.Range(1, size2)))
 		}
-		ops = append(ops, opPump(w.p, size2+3))
+		if size2 <= 15 { // record by record: the per-record clauses (completion is broadcast, ...) apply to single-record steps
+			for i := int64(0); i < size2+3; i++ {
+				ops = append(ops, opPump(w.p, 1))
+			}
+		} else {
+			ops = append(ops, opPump(w.p, size2+3))
+		}
 		if r.Chance(30) { // and a third, filed locally
 			f3 := f2 + size2 + r.Range(0, 5)
 			ops = append(ops, opRequest(w.p, f3, f3+r.Range(1, every+2)), opRefresh(), opPump(w.p, every+6))
